@@ -466,7 +466,7 @@ REG.note('C15', 'not_built', 'NewSessionTicket / NewSessionTicket1_0 / Encrypted
 # ===========================================================================
 
 def _roundtrip(name, mk_x, mk_y, cls_name, start, same_fields, wf=None, doc='', write_name=None, wf_y=None,
-               consumes=True):
+               consumes=True, rewrite=True):
     @scenario('roundtrip-' + name, PROP, doc=doc or '%s.parse(Parser(%s.write(x))) == x, everything consumed, and '
               'write(parse(write(x))) == write(x)' % (cls_name, cls_name))
     def body(api):
@@ -486,7 +486,7 @@ def _roundtrip(name, mk_x, mk_y, cls_name, start, same_fields, wf=None, doc='', 
                 api.oblige(o2.st, 'fields-back', same_fields(ns, x, y))
                 if consumes:
                     api.oblige(o2.st, 'consumed-exactly', ns.f(p, 'index') == S.len_(wire))
-                for o3 in _normal(api, _call(api, wq, write_name, [y], o2.st), 'rewrite'):
+                for o3 in (_normal(api, _call(api, wq, write_name, [y], o2.st), 'rewrite') if rewrite else ()):
                     api.oblige(o3.st, 'rewrite-identical', S.seq_eq(o3.val, wire))
     return body
 
